@@ -68,6 +68,7 @@ class AbsEval(ConstEval):
         self.hooks = hooks or {}  # dotted-name suffix -> callable(args, kw) for external / summarised callees
         self.unequal = {frozenset(p) for p in unequal}  # pairs of terms known to differ in the abstract input
         self.log = []
+        self.func_hooks = {}  # (module, function name) -> callable(args, kw): summarised repository callee (e.g. a decoder oracle)
 
     # ------------------------------------------------------------------ truth / operators on terms
     def truth(self, v):
@@ -378,6 +379,9 @@ class AbsEval(ConstEval):
             raise AbsRaise("AttributeError", args[1])
         if name == "cast" and len(args) == 2:
             return args[1]
+        if name == "type" and len(args) == 1:
+            t = a0[1] if isinstance(a0, tuple) and len(a0) == 2 and a0[0] == "exception" else pytype_of(a0)
+            return AObj("type", {"__name__": t or "object", "__qualname__": t or "object"})
         if name == "iter" and len(args) == 1 and isinstance(a0, (list, tuple)):
             return list(a0)
         if name == "next":
@@ -412,6 +416,9 @@ class AbsEval(ConstEval):
 
     # ------------------------------------------------------------------ statements
     def exec_stmt(self, s, env, mod):
+        if isinstance(s, ast.Expr) and isinstance(s.value, ast.Yield) and getattr(self, "_yields", None):
+            self._yields[-1].append(self.eval(s.value.value, env, mod) if s.value.value is not None else None)
+            return
         if isinstance(s, ast.Raise):
             if s.exc is None:
                 raise AbsRaise("reraise")
@@ -496,6 +503,21 @@ class AbsEval(ConstEval):
         except NotConstant as ex:
             return ("undecided", str(ex))
 
+    def call_func(self, f, args, kw=None):
+        h = self.func_hooks.get((f.mod, f.node.name))
+        if h is not None:
+            return h(list(args), dict(kw or {}))
+        if any(isinstance(n, (ast.Yield, ast.YieldFrom)) for n in ast.walk(f.node)):
+            # a generator function: its items, collected eagerly (sound when the generator body does not depend on what the consumer does between items)
+            self._yields = getattr(self, "_yields", [])
+            self._yields.append([])
+            try:
+                super().call_func(f, args, kw)
+            finally:
+                items = self._yields.pop()
+            return items
+        return super().call_func(f, args, kw)
+
     # ------------------------------------------------------------------ entry
     def apply(self, fn, args):
         """run repository function (sa.model.Func) on abstract arguments -> ('value', v) | ('raise', cls) | ('branch', term) | ('undecided', why)"""
@@ -519,9 +541,16 @@ def _typed(res, pytype):
     return s
 
 
+CONSTRUCT_ERRORS = {"ConstructError", "SizeofError", "AdaptationError", "ValidationError", "StreamError", "FormatFieldError", "IntegerError", "StringError", "MappingError", "RangeError",
+                    "RepeatError", "ConstError", "IndexFieldError", "CheckError", "ExplicitError", "NamedTupleError", "TimestampError", "UnionError", "SelectError", "SwitchError",
+                    "StopFieldError", "PaddingError", "TerminatedError", "RawCopyError", "RotationError", "ChecksumError", "CancelParsing"}
+
+
 def _exc_matches(cls, names):
     import builtins
     for h in names:
+        if h == "ConstructError" and cls in CONSTRUCT_ERRORS:
+            return True
         if h in ("Exception", "BaseException") or h == cls:
             return True
         a, b = getattr(builtins, cls, None), getattr(builtins, h, None)
